@@ -255,7 +255,7 @@ def _rbgeom_block(ev, fn):
         if name in views:
             return views[name]
         r = False
-        for iv in [e.get(f"<init:{name}>") for e in ev.sh.envs]:
+        for iv in [e.get(f"<init:{G.base_name(name)}>") for e in ev.sh.envs]:
             p = G.fn_parts(iv) if G.is_rat(iv) else None
             if p is None or p[0] not in ("call:.reshape", "call:np.reshape") or not p[1] or not G.same(p[1][0], out):
                 continue
@@ -585,6 +585,45 @@ def r2_local_frames(ctx):
                 break
     ctx.check(ok, "rbgeom_uset: the basic rigid-body rows of every grid are taken to its output system with the transpose of that grid's own 3x3 "
                   "(table rows 3..5, columns x, y, z), translations and rotations alike", rect[0]["node"] if rect else fn, detail)
+    # ---- every grid is visited: first rows 0, 6, 12, ... of the (row-selected) table
+    nrows = [F.fn("idx", F.fn("attr:shape", U), F.const(0)), F.fn("call:len", U)]
+    nrows += [6 * F.fn("floordiv", n_, F.const(6)) for n_ in list(nrows)]
+    ngrid = [F.fn("floordiv", n_, F.const(6)) for n_ in nrows[:2]]
+
+    def first_rows(itv, var, base):
+        """True / False when the iterable is understood, None otherwise"""
+        q = G.fn_parts(itv) if G.is_rat(itv) else None
+        if q is None or q[0] not in ("call:range", "call:np.arange"):
+            return None
+        a_ = q[1]
+        if len(a_) == 1:
+            return any(G.same(a_[0], n_) for n_ in ngrid) and G.same(base, 6 * var)
+        if len(a_) == 3:
+            return G.int_of(a_[0]) == 0 and G.int_of(a_[2]) == 6 and any(G.same(a_[1], n_) for n_ in nrows) and G.same(base, var)
+        return False
+    if len(rect) == 1:
+        _, b, _, _, _ = _loop_rows(gen, rect[0])
+        r_ = first_rows(rect[0]["iter"], rect[0]["var"], b) if G.is_rat(rect[0]["var"]) else None
+        if r_ is None:
+            ctx.error("rbgeom_uset: rows visited by the rectangular step", rect[0]["node"], _show(rect[0]["iter"]))
+        else:
+            ctx.check(r_, "rbgeom_uset: the rectangular step visits every grid: blocks of six rows starting at 0, 6, 12, ... of the selected table",
+                      rect[0]["node"], None if r_ else {"iterable": _show(rect[0]["iter"]), "first row": _show(b)})
+    # ---- the rows of the grids, and only those, of the returned array receive the result
+    ret = gen.ret()
+    sel = (G.fn_parts(U) or ("", []))
+    sel = sel[1][1] if sel[0] == "idx" and len(sel[1]) == 2 else None
+    if len(rect) == 1 and G.is_rat(ret) and G.ident(ret) is not None and sel is not None:
+        rbuf = _loop_rows(gen, rect[0])[0]
+        hits = [(e, v) for buf_, e, v, st in gen.sh.rowlog if buf_ == G.ident(ret) and G.is_rat(v) and G.ident(v) == rbuf]
+        hits += [(ix[0], v) for nm, ix, v, st in gen.cells if nm == G.ident(ret) and isinstance(ix, tuple) and len(ix) == 2 and G.is_rat(v)
+                 and G.ident(v) == rbuf and G.is_rat(ix[1]) and G.as_slice(ix[1]) == (None, None, None)]
+        ok = len(hits) == 1 and G.same(hits[0][0], sel)
+        ctx.check(ok, "rbgeom_uset: the local-frame rows are written to the rows of the grids that were selected (scalar points and q-set grids keep "
+                      "zeros) of the returned array", gen.returns[-1][1] if gen.returns else fn,
+                  None if ok else {"stores": [(_show(e, 120), _show(v, 60)) for e, v in hits]})
+    else:
+        ctx.error("rbgeom_uset: returned array", fn, _show(ret))
     # ---- the cylindrical / spherical fix-ups
     loops = [lp for lp in top if lp not in rect]
     want_type = gen.expr('uset.loc[(slice(None), 2), "y"]')
@@ -614,6 +653,15 @@ def r2_local_frames(ctx):
             continue
         calls = _atan2_calls(gen, lp)
         rows = _loop_rows(gen, lp)
+        pos = G.fn_parts(lp["iter"])[1][0]
+        r_ = first_rows(pos, lp["var"], rows[1]) if rows is not None and G.is_rat(lp["var"]) else None
+        if r_ is None:
+            ctx.error(f"rbgeom_uset (type {code}): positions of the selected grids", lp["node"], _show(pos))
+            continue
+        if not r_:
+            ctx.fail(f"rbgeom_uset: a fix-up runs over the first rows (0, 6, 12, ...) of the grids its mask selects", lp["node"],
+                     {"positions": _show(pos), "first row used": _show(rows[1])})
+            continue
         if rows is not None and rows[4]:
             ctx.fail("rbgeom_uset: the fix-up of a grid rewrites rows of that grid only (rows i .. i + 5 of its first row i)", lp["node"],
                      {"row offsets outside 0..5": rows[4]})
@@ -639,7 +687,7 @@ def r2_local_frames(ctx):
         locv = None
         d0 = G.single_atom(l[0])
         if d0[0] == "s":
-            nm = _ELEM.match(d0[1]).group(1)
+            nm = G.base_name(_ELEM.match(d0[1]).group(1))
             locv = next((v for n_, v, _ in gen.sh.inits[lp["inits"][0]:lp["inits"][1]][::-1] if n_ == nm), None)
         else:
             locv = G._arg(d0[2][0])
@@ -699,6 +747,12 @@ def r2_local_frames(ctx):
         for ev in wpaths:
             for lp, code, lids, M, calls in info:
                 lw = [x for x in ev.sh.loops if x["node"] is lp["node"]]
+                guards_gen = [1 for v, n, d in gen.sh.asked[lp["asked"][0]:lp["asked"][1]] if G.is_rat(v) and any(a_ in lids for a_, _ in G.atoms_of(v))]
+                guards_w = [1 for v, n, d in ev.sh.asked[lw[0]["asked"][0]:lw[0]["asked"][1]] if G.is_rat(v) and any(a_ in lids for a_, _ in G.atoms_of(v))] \
+                    if lw else []
+                if guards_gen and not guards_w:
+                    und.append(f"the evaluation at {tuple(map(str, w))} does not meet the tests of the generic evaluation")
+                    continue
                 mw = _loop_matrix(ev, lw[0]) if lw else None
                 if lw and mw is None and not any(r_[0].startswith("zeros#") for r_ in ev.sh.rowlog[lw[0]["rows"][0]:lw[0]["rows"][1]]):
                     mw = (None, tuple(tuple(F.const(int(p_ == q_)) for q_ in range(6)) for p_ in range(6)))      # nothing was rotated
@@ -820,7 +874,7 @@ def r4_rbe3_order(ctx):
 
 RULES = [
     ("C14-R1", r1_inverse_pair, 12),
-    ("C14-R2", r2_local_frames, 9),
+    ("C14-R2", r2_local_frames, 11),
     ("C14-R3", r3_rbgeom, 4),
     ("C14-R4", r4_rbe3_order, 3),
 ]
@@ -829,9 +883,9 @@ EXPLANATION = ("Static, decided on values (verifier/c14_sem.py evaluates the fun
                "aliases and module constants): (R1) getcoordinates composed with _get_loc_a_basic is the identity on the entered coordinates for "
                "rectangular, cylindrical and spherical systems with a general orientation (Euler-angle matrix, orthonormal by sin^2+cos^2=1) and origin, "
                "and a quotient by sin/cos of the azimuth is formed only where its selecting test keeps the divisor away from zero; (R2) rbgeom_uset takes "
-               "each grid's rows to its output system, builds the local position from the grid's own table block, rotates translations and rotations "
+               "each grid's rows (blocks of six, every grid) to its output system, builds the local position from the grid's own table block, rotates translations and rotations "
                "into the local cylindrical / spherical unit-vector frame, selects grids by the type codes 2 / 3, and skips a rotation only on the polar axis "
-               "(witness table of off-axis points); (R3) rbgeom's 6x6 block per grid is [[I, -[r x]], [0, I]] about a scalar or vector reference, the zero "
+               "(witness table of off-axis points), rewrites only the grid's own rows and returns them at the rows of the selected grids; (R3) rbgeom's 6x6 block per grid is [[I, -[r x]], [0, I]] about a scalar or vector reference, the zero "
                "short cut is taken only for the zero vector, rbmove composes with rbgeom; (R4) formrbe3 orders rows / columns against the USET index in "
                "table order.")
 MANIFEST = {
